@@ -460,14 +460,39 @@ def check(ctx):
     for fi_, t, nd in edits:
         for leave in (pop, cp):
             r = evaluate(repo, leave)
-            undo = [u for u, _, _ in r.calls if u[0] == "call" and u[1][0] == "a"
-                    and u[1][2] in ("set_inputs", "_remove_model_inputs", "_detach_model_inputs")]
-            undo += [u for u, _, _ in r.calls if u[0] == "call" and u[1][0] == "a"
-                     and u[1][2] in ("pop", "__delitem__") and "kwinputs" in pretty(u)]
+            # the detachment may sit in the method or in a helper of the model class that
+            # it calls with the detached nodes; what counts is a set_inputs(...) whose
+            # keyword inputs are the node's own minus the model-owned `seed`, for every
+            # node that leaves (after it was released from the model)
+            bodies = [(leave, r)]
+            for u, _, _ in r.calls:
+                if u[0] == "call" and u[1][0] == "a" and u[1][1] == SELF:
+                    hf = repo.lookup_method(mc, u[1][2])
+                    if hf is not None and hf.qualname != leave.qualname:
+                        bodies.append((hf, evaluate(repo, hf)))
+            undo = []
+            for hf, hr in bodies:
+                for u, _, cond in hr.calls:
+                    if not (u[0] == "call" and u[1][0] == "a" and u[1][2] == "set_inputs"):
+                        continue
+                    tgt = u[1][1]
+                    kws = [v for k, v in u[3] if k == "**"]
+                    keeps_rest = any(
+                        v[0] == "comp" and v[1] == "dict" and len(v[3]) == 1
+                        and v[3][0][1] == ("call", ("a", ("a", tgt, "kwinputs"), "items"), (), ())
+                        and any(cd[0] == "u" and cd[1] == "not" and cd[2][0] == "cmp"
+                                and c("seed") in cd[2][2:] for cd in v[3][0][2])
+                        for v in kws)
+                    positional = u[2] == (("star", ("a", tgt, "inputs")),)
+                    owned_only = any("_model" in pretty(a) and p_ for a, p_ in cond)
+                    if tgt[0] == "iter" and keeps_rest and positional and owned_only:
+                        undo.append(u)
+            unset_first = any(u[1][0] == "a" and u[1][2] == "_unset_model" for u, _, _ in r.calls)
             ctx.ob("C15.R8", leave, f"the model-owned input attached to user nodes by "
                                     f"{fi_.name} is removed again when the nodes leave the "
                                     f"model (otherwise re-building them finds a reserved "
-                                    f"'_model*' node among the user nodes)", bool(undo),
+                                    f"'_model*' node among the user nodes)",
+                   bool(undo) and unset_first,
                    detail="the returned nodes keep their `seed` input pointing at the popped "
                           "model's '_model_<name>_seed' node", node=None,
                    stmt=f"seed input not detached by {leave.name}")
